@@ -148,6 +148,19 @@ func startWatchdog() {
 	}()
 }
 
+// markProgress / startWatchdogFor give the other engines the same real-time watchdog.
+func markProgress(label string) {
+	wdMu.Lock()
+	if label == "" {
+		wdPath = nil
+	} else {
+		wdPath, wdStarted = []Edge{{A: map[string]any{"a": label}}}, time.Now()
+	}
+	wdMu.Unlock()
+}
+
+func startWatchdogFor(*testing.T) { startWatchdog() }
+
 func walkPathK(t *testing.T, g *Graph, seed int64, path []Edge, known []knownFinding) (int, []Mismatch, any, any, int) {
 	t.Helper()
 	wdMu.Lock()
